@@ -18,6 +18,13 @@ CLAIMED["C12"] = dict(
          "every class guess_form can return for ANY character conjugates; new_guessed accepts every well-formed pair. Conjugation, guess_form and new_guessed are run against the model.",
     note="full. Trusted: Coq kernel, translator gen_conj, the hand-written gojuon/euphonic/core-form vocabulary (Dic/Gojuon.v) as the specification, UTF-8 length by range, rows are single characters.",
     ref="6/C12")
+CLAIMED["C19"] = dict(
+    technique="Coq proof over tables regenerated from chokan.el + correspondence against the elisp source run by a purpose-built evaluator",
+    text="Kernel-checked theorems: every one of the 259 table spellings types to its kana (computed over the regenerated table), conversion terminates for every input (fuel S|s| suffices, "
+         "no empty key), characters in no key pass through in order, a doubled consonant yields っ + the rest, hira-to-kata is character-wise and maps exactly the table kana. "
+         "The three defuns are executed from chokan.el's text by a mini elisp evaluator and compared with the model on exhaustive short strings and random strings. Idempotence is checked on every explored input but not proved in general.",
+    note="partial: idempotence has no general proof (tested exhaustively on strings up to length 4/5 over a reduced alphabet); Emacs is absent, so the evaluator /verif/tools/elisp_mini.py (reproduces chokan-tests.el) is trusted to stand in for it.",
+    ref="6/C19")
 PENDING = {}
 
 def main():
